@@ -89,6 +89,7 @@ type Env struct {
 	FailedK  string // key of the expression that was failed ("Text.f")
 	Fired    string // "expr" | "nested" | ""
 	Hook     func(kind, key string)
+	Cancelled bool // the context was cancelled at a fault point of this render
 	Static   bool // shared between tasks: no counters, no faults
 	// C12: universe of scripts/css, node extensions, and the log of rendered uses.
 	C12  *c12u
@@ -112,6 +113,7 @@ func (e *Env) point(kind, key string) bool {
 	}
 	if i == e.CancelAt && e.Cancel != nil {
 		e.Cancel()
+		e.Cancelled = true
 	}
 	if i == e.FailAt {
 		e.FailedK = key
